@@ -12,6 +12,10 @@
                                                                       event received as untrusted input, no proviso)
   * `eventID_injective`                                               under collision-free `H`: equal IDs ⇒ equal
                                                                       redacted, signature- and unsigned-stripped events
+  * `eventID_determines_hashes` / `eventID_injective_hashed` /        … ⇒ equal `hashes` members ⇒ (valid content hashes) equal
+    `build_eventID_injective`                                         hashed fields: every field but `unsigned` / `signatures`;
+                                                                      at the level of `EventBuilder.Build`: two builds with the
+                                                                      same ID agree on every hashed field
   * `eventID_alphabet`                                                `$` + 43 characters of the prescribed base64 alphabet
   Room version 12:
   * `v12_create_roomID`, `v12_auth_first`
@@ -30,6 +34,7 @@ import VProofs.B64
 import VProps.C04
 import VModel.EventBuild
 import VProofs.EventBuildRoundtrip
+import VProofs.EventIdInj
 namespace V.C03
 open V V.Json V.GoJson V.Redact V.EventParse V.RedactProofs V.EventProofs V.BuildProofs
 
@@ -382,7 +387,10 @@ theorem referenceID_hashed (H : Bytes → Bytes) (row : VGen.VersionRow) (ver : 
     values with well-formed number literals those forms are then equal up to member order and the
     spelling of zero (`C01.encodeCanon_injective`).  Since `hashes` is part of the redacted form, events
     built from proto-events that differ in a hashed field differ in `hashes.sha256` (again by collision
-    freeness of `H`: `hash_injective`) and hence in their ID. -/
+    freeness of `H`: `hash_injective`) and hence in their ID.  That last step is formalised at the end of this
+    file: `eventID_determines_hashes` (equal IDs ⇒ equal `hashes` members up to canonical form, equal
+    `hashes.sha256`), `eventID_injective_hashed` (… and valid content hashes ⇒ equal hashed fields) and
+    `build_eventID_injective` (the statement about `EventBuilder.Build`). -/
 theorem eventID_injective (H : Bytes → Bytes) (hH : Function.Injective H) (row : VGen.VersionRow) (ver : Bytes)
     (hfmt : row.eventFormat = 2) {j1 j2 : JVal} {id : Bytes}
     (h1 : referenceID H row ver j1 = .ok id) (h2 : referenceID H row ver j2 = .ok id) :
@@ -1107,5 +1115,198 @@ theorem untrusted_refuses_duplicate_members (H : Bytes → Bytes) (ver t : Bytes
           · rename_i hnd
             simp [hd] at hnd
     · cases h
+
+/-! ## Injectivity, completed: the event ID determines `hashes`, hence every hashed field
+
+`eventID_injective` stops at the reference bytes.  The three theorems below carry the argument through: equal reference
+bytes are equal canonical forms of the redacted events (`C01.encodeCanon_injective`; the redaction of a value with
+grammatical number literals has grammatical number literals: `IdInj.redactWith_numsOk`), the redaction keeps `hashes`
+verbatim (`IdInj.redactWith_raw`), the canonical form of an object holds under a key the canonical form of the member
+the text has under it (`IdInj.lookupExact_canonFirst`), and `hashes.sha256` as gjson reads it is a function of the
+canonical form of `hashes` (`IdInj.claimedHash_canon`, no hypothesis about duplicate keys inside `hashes`). -/
+
+/-- **The event ID determines the `hashes` member** (collision-free `H`, event formats with hashed IDs).  Two events
+    with the same ID, given as objects without repeated top-level keys whose number literals follow the JSON grammar
+    (`numsOk`: true of every value a text denotes, `parse_numsOk`), have the same `hashes` member up to canonical form
+    (member order, `-0`) — equivalently the same canonical encoding of it — and the same `hashes.sha256` string.
+
+    The hypothesis "no repeated top-level key" is needed: gjson (`claimedHash`) reads the FIRST `hashes` member,
+    redaction keeps the LAST one; `exDupHashes` below is a pair with equal IDs and different `hashes.sha256`.  (The
+    untrusted constructors refuse such events, `C04.refuses_repeated_member`; `Build` does not produce them.) -/
+theorem eventID_determines_hashes (H : Bytes → Bytes) (hH : Function.Injective H) (row : VGen.VersionRow) (ver : Bytes)
+    (hfmt : row.eventFormat = 2) {k1 k2 : EventParse.Obj} {id : Bytes}
+    (hn1 : (JVal.obj k1).numsOk = true) (hn2 : (JVal.obj k2).numsOk = true)
+    (hd1 : (keysOf k1).Nodup) (hd2 : (keysOf k2).Nodup)
+    (h1 : referenceID H row ver (.obj k1) = .ok id) (h2 : referenceID H row ver (.obj k2) = .ok id) :
+    (getFirst k1 b!"hashes").map (fun v => v.sorted.normNums) = (getFirst k2 b!"hashes").map (fun v => v.sorted.normNums) ∧
+    (getFirst k1 b!"hashes").map encodeCanon = (getFirst k2 b!"hashes").map encodeCanon ∧
+    claimedHash k1 = claimedHash k2 := by
+  have hb := eventID_injective H hH row ver hfmt h1 h2
+  have ok : ∀ {k : EventParse.Obj}, referenceID H row ver (.obj k) = .ok id → ∃ b, referenceBytes ver (.obj k) = .ok b := by
+    intro k h
+    cases hr : redactJSON ver (.obj k) with
+    | error x => simp [referenceID, hr] at h
+    | ok v =>
+      obtain ⟨_, _, r, _, _, hv⟩ := C04.redactJSON_obj hr
+      subst hv
+      exact ⟨encodeCanon (.obj (stripSigs r)), by simp [referenceBytes, hr]⟩
+  obtain ⟨b, hb1⟩ := ok h1
+  have hb2 : referenceBytes ver (.obj k2) = .ok b := by rw [← hb, hb1]
+  have hcan := IdInj.hashes_of_referenceBytes hn1 hn2 hb1 hb2
+  rw [← IdInj.getFirst_eq_lookupExact hd1, ← IdInj.getFirst_eq_lookupExact hd2] at hcan
+  refine ⟨hcan, ?_, ?_⟩
+  · have e : ∀ o : Option JVal, o.map encodeCanon = (o.map (fun v => v.sorted.normNums)).map encode := by
+      intro o
+      cases o with
+      | none => rfl
+      | some v =>
+        simp only [Option.map_some, encodeCanon]
+        rw [encode_normNums]
+    rw [e, e (getFirst k2 _), hcan]
+  · rw [IdInj.claimedHash_canon, IdInj.claimedHash_canon, hcan]
+
+/-- the pair showing that `eventID_determines_hashes` needs "no repeated top-level key": a second, earlier `hashes` member -/
+def exDupHashes (dup : Bool) : EventParse.Obj :=
+  (if dup then [(b!"hashes", JVal.obj [(b!"sha256", .str b!"QQ")])] else []) ++
+  [(b!"type", .str b!"m.x"), (b!"content", .obj []), (b!"hashes", .obj [(b!"sha256", .str b!"Qg")]), (b!"sender", .str b!"@a:h")]
+
+/-- same reference hash under the identity as hash function (room version 10), different `hashes.sha256` -/
+example : (match rowOf b!"10" with
+  | some row =>
+    (match referenceID (fun b => b) row b!"10" (.obj (exDupHashes true)), referenceID (fun b => b) row b!"10" (.obj (exDupHashes false)) with
+     | .ok a, .ok b => a == b && !a.isEmpty && claimedHash (exDupHashes true) != claimedHash (exDupHashes false)
+     | _, _ => false)
+  | none => false) = true := by decide +kernel
+
+/-- **The event ID determines every hashed field** (collision-free `H`, event formats with hashed IDs).  Two events
+    with a valid content hash (`checkEventContentHash` passes: what `NewEventFromUntrustedJSON` returns unredacted,
+    what `Build` returns) and the same event ID have the same hashed bytes: the canonical encodings of the two events
+    without `unsigned`, `signatures` and `hashes` coincide, i.e. (second clause) those two objects are equal up to
+    member order and the spelling of zero — every other field, top-level or inside `content`, protected by the
+    redaction algorithm or not, is the same. -/
+theorem eventID_injective_hashed (H : Bytes → Bytes) (hH : Function.Injective H) (row : VGen.VersionRow) (ver : Bytes)
+    (hfmt : row.eventFormat = 2) {k1 k2 : EventParse.Obj} {id : Bytes}
+    (hn1 : (JVal.obj k1).numsOk = true) (hn2 : (JVal.obj k2).numsOk = true)
+    (hd1 : (keysOf k1).Nodup) (hd2 : (keysOf k2).Nodup)
+    (hc1 : contentHashOk H k1 = true) (hc2 : contentHashOk H k2 = true)
+    (h1 : referenceID H row ver (.obj k1) = .ok id) (h2 : referenceID H row ver (.obj k2) = .ok id) :
+    hashedBytes k1 = hashedBytes k2 ∧
+    (JVal.obj (deleteKeys [b!"signatures", b!"unsigned", b!"hashes"] k1)).sorted.normNums =
+      (JVal.obj (deleteKeys [b!"signatures", b!"unsigned", b!"hashes"] k2)).sorted.normNums := by
+  have hb := hash_injective H hH hc1 hc2 (eventID_determines_hashes H hH row ver hfmt hn1 hn2 hd1 hd2 h1 h2).2.2
+  refine ⟨hb, ?_⟩
+  have nums : ∀ {k : EventParse.Obj}, (JVal.obj k).numsOk = true →
+      (JVal.obj (deleteKeys [b!"signatures", b!"unsigned", b!"hashes"] k)).numsOk = true := by
+    intro k hn
+    have := numsOk_obj_forall hn
+    exact numsOk_obj_of_forall (fun kv hkv => this kv ((deleteKeys_sublist _ _).subset hkv))
+  exact C01.encodeCanon_injective _ _ (nums hn1) (nums hn2) hb
+
+/-- event format 2 is read by the later structs -/
+theorem fmt_of_eventFormat2 {ver : Bytes} {row : VGen.VersionRow} {fmt : Fmt} (hrow : rowOf ver = some row)
+    (hf : fmtOfName row.newEventFromTrustedJSONFunc = some fmt) (hfmt : row.eventFormat = 2) : fmt ≠ .v1 := by
+  have := build_table_facts row (List.mem_of_find?_eq_some hrow)
+  simp only [Bool.and_eq_true, beq_iff_eq] at this
+  obtain ⟨⟨_, h2⟩, _⟩ := this
+  intro hv
+  rw [hf, hv, hfmt] at h2
+  simp at h2
+
+/-- what `Build` returns (event format 2): an object without repeated top-level keys, with grammatical number
+    literals and a valid content hash, whose reference hash is the event ID -/
+theorem build_hashed {H : Bytes → Bytes} {ver : Bytes} {row : VGen.VersionRow} (hrow : rowOf ver = some row)
+    (hfmt : row.eventFormat = 2) {pe : EventBuild.Proto} {now : Nat} {origin kid rand16 sig : Bytes} {e : PDU}
+    (hpe : ProtoOk pe) (hb : EventBuild.build H ver pe now origin kid rand16 sig = .ok e) :
+    (JVal.obj e.obj).numsOk = true ∧ (keysOf e.obj).Nodup ∧ contentHashOk H e.obj = true ∧
+    ∃ id, referenceID H row ver (.obj e.obj) = .ok id ∧ eventID H e = .ok id := by
+  obtain ⟨row', signed, p, hrow', hsm, henf, hnd, hp, ht, hcf⟩ := build_ok hb
+  have er : row' = row := by rw [hrow] at hrow'; exact (Option.some.inj hrow').symm
+  subst er
+  have SF := signedFacts hsm
+  have hpj := parse_canon_text (signed_numsOk hpe hsm) hp
+  have hnum := parse_numsOk hp
+  rw [hpj] at ht hnum
+  obtain ⟨fmt, id, hf, _, _, _, hE, _, hidl⟩ := trustedCore_shape ht
+  have hne := fmt_of_eventFormat2 hrow hf hfmt
+  have hkeys : ∀ kv ∈ signed, kv.1 ∈ allKeys := by
+    intro kv hkv
+    rcases SF.keys kv hkv with h | h
+    · rw [h]; exact List.mem_cons_self
+    · exact List.mem_cons_of_mem _ h
+  have hid := hidl hne
+  subst hE
+  refine ⟨hnum, ?_, IdInj.contentHash_canon_obj H hnd hkeys SF.hash, id, hid, ?_⟩
+  · exact keys_nodup_of_noDup (by rw [← canon_obj]; exact noDup_canon _ hnd)
+  · unfold eventID
+    simp only
+    by_cases hc : (fmt == Fmt.v1 || !id.isEmpty) = true
+    · rw [if_pos hc]
+    · rw [if_neg hc]
+      simp only [hrow, hid]
+
+/-- **C03 at the level of `EventBuilder.Build`: events built from proto-events that differ in any field other than
+    `unsigned` / `signatures` get different IDs** (contrapositive; collision-free `H`).  Two successful builds in the
+    same room version (event format 2 = room versions 3 and later), from any two proto-events whose raw-JSON inputs
+    are JSON values (`ProtoOk`), at any times, with any origins, key IDs and signature bytes: if the two events have
+    the same event ID, then their JSON without `unsigned`, `signatures` and `hashes` has the same canonical encoding
+    — the same type, sender, room ID, state key, content (every key of it), depth, `origin_server_ts`, `origin`,
+    prev / auth references, redacts — and the two objects are equal up to member order and the spelling of zero. -/
+theorem build_eventID_injective {H : Bytes → Bytes} (hH : Function.Injective H) {ver : Bytes} {row : VGen.VersionRow}
+    (hrow : rowOf ver = some row) (hfmt : row.eventFormat = 2)
+    {pe1 pe2 : EventBuild.Proto} {now1 now2 : Nat} {origin1 origin2 kid1 kid2 rand1 rand2 sig1 sig2 : Bytes} {e1 e2 : PDU}
+    (hpe1 : ProtoOk pe1) (hpe2 : ProtoOk pe2)
+    (hb1 : EventBuild.build H ver pe1 now1 origin1 kid1 rand1 sig1 = .ok e1)
+    (hb2 : EventBuild.build H ver pe2 now2 origin2 kid2 rand2 sig2 = .ok e2)
+    (hid : eventID H e1 = eventID H e2) :
+    hashedBytes e1.obj = hashedBytes e2.obj ∧
+    (JVal.obj (deleteKeys [b!"signatures", b!"unsigned", b!"hashes"] e1.obj)).sorted.normNums =
+      (JVal.obj (deleteKeys [b!"signatures", b!"unsigned", b!"hashes"] e2.obj)).sorted.normNums := by
+  obtain ⟨hn1, hd1, hc1, id1, hr1, hi1⟩ := build_hashed hrow hfmt hpe1 hb1
+  obtain ⟨hn2, hd2, hc2, id2, hr2, hi2⟩ := build_hashed hrow hfmt hpe2 hb2
+  rw [hi1, hi2] at hid
+  have : id1 = id2 := Except.ok.inj hid
+  subst this
+  exact eventID_injective_hashed H hH row ver hfmt hn1 hn2 hd1 hd2 hc1 hc2 hr1 hr2
+
+
+/-! ### Non-vacuity of `build_eventID_injective`: concrete builds under an injective toy hash (the identity) -/
+
+/-- an injective "hash": the identity -/
+def Hid : Bytes → Bytes := fun b => b
+
+theorem Hid_injective : Function.Injective Hid := fun _ _ h => h
+
+/-- a member event whose content carries a `displayname` (a key NO redaction keeps: the two events below have the
+    same redacted content, their IDs differ through `hashes` only) -/
+def exMember (name : Bytes) (uns : Option JVal) : EventBuild.Proto :=
+  { exProto with content := some (.obj [(b!"membership", .str b!"join"), (b!"displayname", .str name)]), unsigned := uns }
+
+/-- the ID of what `Build` returns (room version 10), `none` when `Build` fails -/
+def builtID (pe : EventBuild.Proto) (sig : Bytes) : Option Bytes :=
+  match EventBuild.build Hid b!"10" pe 1000 b!"hs" b!"ed25519:1" b!"abcdefghijklmnop" sig with
+  | .ok e =>
+    (match eventID Hid e with
+     | .ok id => some id
+     | .error _ => none)
+  | .error _ => none
+
+example : ProtoOk (exMember b!"a" none) ∧ ProtoOk (exMember b!"b" (some (.obj [(b!"age", .num b!"7")]))) :=
+  ⟨⟨fun c h => by cases h; decide, fun u h => (by cases h), fun s h => (by cases h)⟩,
+   ⟨fun c h => by cases h; decide, fun u h => by cases h; decide, fun s h => (by cases h)⟩⟩
+
+set_option maxRecDepth 100000 in
+/-- what `build_hashed` derives, evaluated on a concrete build: the hypotheses of `eventID_determines_hashes` /
+    `eventID_injective_hashed` are satisfiable together (with an injective `H`) -/
+example : (match EventBuild.build Hid b!"10" (exMember b!"a" none) 1000 b!"hs" b!"ed25519:1" b!"abcdefghijklmnop" b!"c2ln" with
+  | .ok e => (JVal.obj e.obj).numsOk && noDupIn (keysOf e.obj) && contentHashOk Hid e.obj && !(claimedHash e.obj).isEmpty
+  | .error _ => false) = true := by decide +kernel
+
+set_option maxRecDepth 100000 in
+/-- three successful builds: two that differ in one (redactable) content field have different IDs; two that differ
+    only in `unsigned` and in the signature bytes have the same ID -/
+example : (match builtID (exMember b!"a" none) b!"c2ln", builtID (exMember b!"b" none) b!"c2ln",
+      builtID (exMember b!"a" (some (.obj [(b!"age", .num b!"7")]))) b!"eHl6" with
+  | some i1, some i2, some i3 => i1 != i2 && i1 == i3 && !i1.isEmpty
+  | _, _, _ => false) = true := by decide +kernel
 
 end V.C03
